@@ -653,6 +653,7 @@ func RunC02(d *Driver) *Report {
 		}
 		evalStream(r, d, "corpus:"+w.Name, w.Src, RunOpts{}, parts, true, oracle)
 	}
+	r.Rule += " | any-concrete: every untyped or partly untyped expression form (empty literals, nested, sliced, concatenated, repeated, elements and fields of literals), plain and in one and two pairs of parentheses, stored into an any variable, element, field and function result: typeof reports a concrete type. Type matrix: every kind of value, also non-literal untyped expressions, in every position that takes a value (incl. parenthesised in any positions), repeated arrays holding maps with keys added and deleted afterwards"
 	r.DriverCalls = d.N
 	return r
 }
